@@ -263,8 +263,8 @@ func ReadAllTargets(t Targeter) (tgts []Target, err error) {
 func NewHTTPTargeter(src io.Reader, body []byte, hdr http.Header) Targeter {
 	var mu sync.Mutex
 	scanner := bufio.NewScanner(src)
-	// No limit on the length of a line: with the default of 64 KiB a longer
-	// URL or header value silently ended the target, or the whole file.
+	// Lines of up to 2 GiB: with the default of 64 KiB a longer URL or
+	// header value silently ended the target, or the whole file.
 	scanner.Buffer(nil, math.MaxInt32)
 	sc := peekingScanner{src: scanner}
 	return func(tgt *Target) (err error) {
